@@ -562,7 +562,7 @@ static const char *cbop_name[NCBOPS + 3] = { "claim_del(exp)", "claim_del(nbf)",
 	"claim_set(aud=good,replace)", "claim_merge(all good,replace)", "header_set(alg=none,replace)", "header_set(alg=HS256,replace)",
 	"header_del(alg)", "header_del(all)", "get(claims,alg)",
 	/* calls the library refuses (the refusal is the callback's business, not the verdict's) */
-	"claim_set(x,NULL)!", "claim_set(empty name)!, header_set(NULL name)!", "claim_set(j, malformed JSON)!, header_set(JSON \"5\")!",
+	"claim_set(x,NULL)!, claim_set(exp|nbf|iss|sub|aud,<not UTF-8>,replace)!", "claim_set(empty name)!, header_set(NULL name)!", "claim_set(j, malformed JSON)!, header_set(JSON \"5\")!",
 	/* configuration edits: only in vetoing programs, and (the first) in accepting programs against a keyed baseline */
 	"config(key=HS,alg=HS256)", "config(key=HS)", "config(key=NULL,alg=none)" };
 #define NCBOPS_ALL 23
@@ -623,6 +623,10 @@ static void run_cbop(jwt_t *jwt, jwt_config_t *cfg, int op)
 		break;
 	case 17:
 		jwt_set_SET_STR(&v, "x", NULL); v.replace = 1; jwt_claim_set(jwt, &v);
+		/* a replacement the library refuses for its value: whatever it did to the member on the way, the verdict is not the callback's */
+		for (int i = 0; i < 5; i++) {
+			jwt_set_SET_STR(&v, names[i], "\xff\xfe"); v.replace = 1; jwt_claim_set(jwt, &v);
+		}
 		break;
 	case 18:
 		jwt_set_SET_INT(&v, "", 7); jwt_claim_set(jwt, &v);
